@@ -349,12 +349,7 @@ impl LocalPeerService {
                     }
                 }
             }
-            let acquere = acquired_lock.lock().await;
-            let mut rooms: Vec<Uid> = Vec::new();
-            for room in acquere.iter() {
-                rooms.push(*room);
-            }
-            Self::cleanup(&lock_service, rooms).await;
+            Self::release_pending_locks(&lock_service, &mut lock_receiver).await;
             let key = remote_verifying_key.lock().await;
             peer_service
                 .disconnect(key.clone(), circuit_id, connection_info.conn_id)
@@ -1121,6 +1116,24 @@ impl LocalPeerService {
             discret_services,
         )
         .await
+    }
+
+    ///
+    /// called when the connection ends: releases the locks that were granted but not yet taken in charge by a synchronisation task.
+    /// A room that is being synchronised is released by its task when it ends (its queries fail once the connection is closed):
+    /// releasing it here would let another connection synchronise the room at the same time, and the late release of the task
+    /// would then free a room held by that other connection.
+    ///
+    pub async fn release_pending_locks(
+        lock_service: &RoomLockService,
+        lock_receiver: &mut mpsc::UnboundedReceiver<Uid>,
+    ) {
+        lock_receiver.close();
+        let mut rooms: Vec<Uid> = Vec::new();
+        while let Ok(room) = lock_receiver.try_recv() {
+            rooms.push(room);
+        }
+        Self::cleanup(lock_service, rooms).await;
     }
 
     ///
